@@ -6,7 +6,7 @@ CHECK = dict(
          "filter, or a backup was due (a selected target tag existed with another digest and a backup template is configured), or a selected tag had been "
          "moved at the target; distinct by (entries incl. filters/platform/mediaTypes/backup/switches, defaults, source and target populations as tag->image "
          "maps, registry feature sets, steps with source changes, YAML style, image graph shapes).",
-    jobs=[REPLAY, rapid("prop", "TestVerifProp", 4800, 96000, sq=16, st=16)],
+    jobs=[REPLAY, rapid("prop", "TestVerifProp", 8000, 192000, sq=16, st=16)],
     technique="property-based testing (rapid): generated regsync YAML configurations (image / repository / registry entries, allow and deny lists from a "
               "regex grammar incl. top-level alternation and tag prefixes, platform, mediaTypes, backup templates, referrers / digestTags / fastCheck / "
               "forceRecursive as defaults and per-entry overrides, parallel 0-4) run through the real cobra commands `once` and `check` in-process against two "
@@ -14,15 +14,20 @@ CHECK = dict(
               "an independent whole-string allow-then-deny matcher, the C03 closure auditor, and the model's request log",
     level_text="Generated-input search over sync configurations x source/target populations x registry feature sets x two-step histories. After every run that "
                "reports success: each selected tag (own matcher, ^(?:expr)$) of an allowed media type resolves at the target to the source digest (or to an entry "
-               "of the configured platform's os/arch) with the complete closure present byte-identically; every other target tag and every other repository is "
-               "bit-identical to before and nothing stored disappeared; a due backup holds the previous image under the independently expanded template name and "
-               "its manifest PUT precedes the overwriting PUT in the request log; the source repositories are unchanged and received no state-changing request; a "
-               "`check` run sends no state-changing request at all; an unchanged second run of entries without forceRecursive/referrers/digestTags sends no "
-               "state-changing request to their targets. Exploration, not proof.",
-    level_note="Trusted: regmodel, audit walker, imggen, Go's regexp package (used with explicit whole-string anchoring), yaml.v3 for the renderer guard. Runs that "
-               "report an error are only judged for the source and check-only clauses. Not asserted: referrers fallback tags (sha256-<hex>) and digest tags written "
-               "by the referrers/digestTags features; which entry of several with the same os/arch a platform selects (C16); manifests that pre-existed at the "
-               "target are treated as in C03 (trusted complete); OCI artifact manifests as index entries (C03 known finding) are not required; `platforms`, "
+               "of the configured platform's os/arch; a target tag that already held the source's index is also accepted unchanged) with the complete closure "
+               "present byte-identically; every other target tag and every other repository is bit-identical to before and nothing stored disappeared; for every "
+               "overwritten tag with a backup template, at the instant of the overwriting PUT (request log) the independently expanded backup name resolves to the "
+               "previous image, whose plain closure is present in the backup repository; the source repositories are unchanged and received no state-changing "
+               "request; a `check` run sends no state-changing request at all and changes nothing; an unchanged second run of entries without "
+               "forceRecursive/referrers/digestTags sends no state-changing request to their targets. Exploration, not proof.",
+    level_note="Two defects were found on the unchanged tree and are keyed by signature: filter-top-level-alternation-not-anchored (filterList built "
+               "'^'+filter+'$'; attributed only to a tag/repository whose selection differs between whole-string and textual anchoring and that was (not) mirrored "
+               "accordingly) and platform-target-holding-source-index-counts-as-match (processRef keeps tgtMatches from the index comparison after resolving the "
+               "platform). Trusted: regmodel, audit walker, imggen, Go's regexp package (used with explicit whole-string anchoring), yaml.v3 for the renderer guard. "
+               "Runs that report an error are only judged for the source and check-only clauses. Not asserted: referrers fallback tags (sha256-<hex>) and their "
+               "backups, digest tags written by the digestTags feature; which entry of several with the same os/arch a platform selects (C16); manifests that "
+               "pre-existed at the target are treated as in C03 (trusted complete); OCI artifact manifests as index entries (C03 known finding) are not required; "
+               "blob-typed index entries are not generated (ImageCopy fails on some of them, an error outcome outside C18); `platforms`, "
                "referrerFilters/Source/Target, ratelimit, hooks, server mode and --missing are not generated.",
     assumptions=["source content is spec-conformant and complete; everything pre-existing at the target is a complete image",
                  "every sync entry writes into its own target repositories (no two entries compete for one target tag)",
